@@ -9,7 +9,7 @@ ERR_VARIANTS = {"Err", "None", "Break"}
 
 class Lit:
     """one decoded switch edge"""
-    __slots__ = ("kind", "term", "truth", "variants", "block", "raw", "value", "adt", "edge", "implied")
+    __slots__ = ("kind", "term", "truth", "variants", "block", "raw", "value", "adt", "edge", "implied", "derived", "parent", "inner_derived")
 
     def __init__(self, kind, term, truth=None, variants=None, block=None, raw=None, value=None, adt=None):
         self.kind = kind          # 'call' | 'variant' | 'cmp' | 'flag' | 'other'
@@ -22,6 +22,9 @@ class Lit:
         self.adt = adt
         self.edge = None
         self.implied = False   # True: not a dominating edge, holds on every feasible path (pathcond)
+        self.derived = False   # True: a consequence of another literal (summary of a crate predicate / fallible helper)
+        self.parent = None     # for derived literals: the literal they were derived from
+        self.inner_derived = False
 
     def __repr__(self):
         from .defuse import fmt
@@ -288,6 +291,37 @@ def expand_predicates(lits, facts, body=None):
     from .defuse import subst
     out = []
     for l in lits:
+        if l.kind == "variant" and l.variants and l.variants <= OK_VARIANTS:
+            # the success edge of a call to one of the crate's own fallible helpers: what every Ok / Some return of the helper
+            # lies behind (`self.check_and_reassert(..)?` keeps the facts `check` established)
+            st = _strip_var(l.term)
+            hops = 0
+            while hops < 6 and st[0] == "call" and callee_name(st) in ("branch", "into", "from", "map_err", "ok_or_else", "ok_or") and st[2]:
+                hops += 1
+                st = _strip_var(st[2][0])
+            if st[0] != "call" or st[4] is None:
+                continue
+            tb = facts.body(st[1])
+            if tb is None or not tb.in_repo() or tb.kind == "closure" or tb.impl_trait is not None or len(tb.blocks) > 400 or \
+                    tb.path in _EXPANDING or len(_EXPANDING) > 3 or (body is not None and tb.path == body.path):
+                continue
+            if not (tb.local_ty(0).startswith("std::result::Result<") or tb.local_ty(0).startswith("std::option::Option<")):
+                continue
+            mapping = {i + 1: a for i, a in enumerate(st[2])}
+            _EXPANDING.append(tb.path)
+            try:
+                inner = success_result_lits(tb, facts)
+            finally:
+                _EXPANDING.pop()
+            for pl in inner:
+                n = Lit(pl.kind, subst(pl.term, mapping), pl.truth, pl.variants, l.block, pl.raw, pl.value, pl.adt)
+                n.edge = l.edge
+                n.implied = True
+                n.derived = True
+                n.parent = l
+                n.inner_derived = pl.derived
+                out.append(n)
+            continue
         if l.kind != "call" or l.truth is None:
             continue
         tb, mapping = _pred_target(l.term, facts, body)
@@ -302,7 +336,37 @@ def expand_predicates(lits, facts, body=None):
             n = Lit(pl.kind, subst(pl.term, mapping), pl.truth, pl.variants, l.block, pl.raw, pl.value, pl.adt)
             n.edge = l.edge
             n.implied = True
+            n.derived = True
+            n.parent = l
+            n.inner_derived = pl.derived
             out.append(n)
+    return out
+
+
+def unaccepted(lits, ok):
+    """for rules that enumerate the conditions a site may depend on: the literals that `ok` does not accept.  A literal that
+    is not accepted itself but is a call of a crate predicate / fallible helper with a summary is replaced by the literals of
+    that summary (so an extracted `fn is_applied(d) -> bool` is judged by what it tests); summaries of accepted literals are
+    not looked at"""
+    kids = {}
+    for d in lits:
+        if d.derived and d.parent is not None:
+            kids.setdefault(id(d.parent), []).append(d)
+    out = []
+    seen = set()
+    for l in lits:
+        if l.derived:
+            continue
+        if ok(l):
+            continue
+        ch = [c for c in kids.get(id(l), []) if not c.inner_derived]
+        if ch:
+            for c in ch:
+                if not ok(c) and id(c) not in seen:
+                    seen.add(id(c))
+                    out.append(c)
+        else:
+            out.append(l)
     return out
 
 
@@ -346,6 +410,12 @@ def closure_result_lits(cb, facts, want=True):
     if not per_site:
         return []
 
+    return _common_lits(per_site)
+
+
+def _common_lits(per_site):
+    from .defuse import fmt
+
     def key(l):
         return (l.kind, callee_name(l.term) if l.kind == "call" else fmt(l.term, 3), l.truth, tuple(sorted(l.variants or [])))
     common = per_site[0]
@@ -353,6 +423,33 @@ def closure_result_lits(cb, facts, want=True):
         ks = {key(l) for l in ls}
         common = [l for l in common if key(l) in ks]
     return common
+
+
+def success_result_lits(fb, facts):
+    """literals (in fb's own terms) that hold whenever the Result / Option returning function `fb` returns Ok / Some: what is
+    common to every site that builds the successful return value; [] when a return value cannot be attributed (e.g. the
+    function forwards another call's result)"""
+    du = du_of(fb)
+    per_site = []
+    for d in du.defs.get(0, []):
+        if d.place.proj:
+            return []
+        if d.kind == "call":
+            if d.term.callee is not None and d.term.callee.name == "from_residual":
+                continue        # the `?` error path
+            return []
+        if d.kind != "assign":
+            return []
+        rv = d.rv
+        if rv.kind == "agg" and rv.j.get("variant") in ("Ok", "Some"):
+            per_site.append(list(lits_of(fb, d.block, facts)))
+        elif rv.kind == "agg" and rv.j.get("variant") in ("Err", "None"):
+            continue
+        else:
+            return []
+    if not per_site:
+        return []
+    return _common_lits(per_site)
 
 
 def _filter_lits(closure_term, next_term, facts):
